@@ -441,6 +441,16 @@ def random_placements(rng, n, max_extra=20):
         sq = allsq[:]
         rng.shuffle(sq)
         grid = {sq[0]: "K", sq[1]: "k"}
+        # any number of kings (the property quantifies over all placements): sometimes none, two or three of a colour
+        kq = rng.random()
+        if kq < 0.06:
+            del grid[sq[0]]
+        elif kq < 0.12:
+            del grid[sq[1]]
+        elif kq < 0.2:
+            grid[sq[62]] = rng.choice("Kk")
+            if rng.random() < 0.4:
+                grid[sq[63]] = rng.choice("Kk")
         style = rng.random()
         if style < 0.15:
             pool = "Qq"
